@@ -55,6 +55,17 @@ def run(chk: core.Check, tier: str, seed: int) -> None:
             ed = core.enc_value(d)
             for t in ("", "[0]", ".a", "..*", "[*]", "[0][0]", ".a.a", "..[0]", "[:]"):
                 recs.append(impl.rec_find(jp, "$" + t, d, paths=True, edoc=ed))
+    # each selector kind on the WRONG kind of value: index / slice selectors on objects whose member names read like indices,
+    # name selectors that read like indices on arrays, every selector on strings (a Python str can be subscripted and iterated)
+    confusable = [{"0": "zero", "1": [1, 2], "-1": {"0": 5, "1": 6}, "2": 7, "a": "xyz"}, [{"0": 1, "1": 2, "-1": 3}, "str", ["0", "1"]],
+                  {"a": {"0": {"0": 1}}, "b": "0"}, "xyz", ["ab", "c", ""]]
+    conf_tails = FIXED_TAILS + ["['0']", "['1']", "['-1']", "[0,'0']", "['0',0]", "..[1]", "..['1']", "[-1]['0']", "['-1'][0]", ".a[0]", ".a[-1]",
+                                ".a[:]", ".a[::-1]", ".a.*", ".a..*", "[1][0]", "[1][-1:]", "[0][0]", "[0][-1]", "..[0][0]", "[*][0]", "[*][-1:]",
+                                ".a['0']['0']", ".a[0][0]", ".b[0]", "[2]['0']", "[2][0]"]
+    for d in confusable:
+        ed = core.enc_value(d)
+        for t in conf_tails:
+            recs.append(impl.rec_find(jp, "$" + t, d, paths=True, edoc=ed))
     n_fixed = len(recs)
     # (2) seeded random queries over deeper documents, plain and nasty names
     n_rand = 6000 if tier == "quick" else 120000
